@@ -200,6 +200,48 @@ def known_sets(ctx, f):
                % (what, missing, adt_id, sorted(have)), "%s:%s" % (a.get("file"), a.get("line")))
 
 
+def flags_never_reject(ctx, f):
+    """F-FLAGS:flags-never-decide-rejection (added after seeded change C13b). A flag bit that means nothing for the
+    message carrying it must be ignored, so on the decoding path no error may be decided by the flags value: in
+    Message::from_raw_parts / from_bytes and the PrimaryHeader readers, no branch whose condition is computed from the
+    header's flags may lead to an `Err` on one edge only."""
+    MSG = "zbus::message::Message"
+    roots = [b for b in f.all_bodies("zbus")
+             if b.root in (MSG + "::from_raw_parts", MSG + "::from_bytes", PH + "::read", PH + "::read_from_data")]
+    ctx.need(roots, "message decoding functions", "F-FLAGS")
+    n = 0
+    for b in roots:
+        seeds = set()
+        for c in mir.calls(b):
+            if c.callee == PH + "::flags" or (c.is_("flags") and "message::header" in c.callee):
+                seeds.add(c.dest[0])
+        for bi, i, pl, rv, ln in mir.assignments(b):
+            for op in mir.rvalue_operands(rv):
+                p = mir.op_place(op)
+                if p and any(isinstance(x, list) and x[0] == "." and x[2] == "flags" and x[3] == PH for x in p[1]):
+                    seeds.add(pl[0])
+            if rv[0] == "ref" and any(isinstance(x, list) and x[0] == "." and x[2] == "flags" and x[3] == PH for x in rv[2][1]):
+                seeds.add(pl[0])
+        if not seeds:
+            continue
+        der = mir.derives(b, seeds, through_calls=True)
+        err = fl.err_blocks(b)
+        for sb, t in mir.switches(b):
+            ls = mir.operand_locals(t[1])
+            if not any(l in der for l in ls):
+                continue
+            n += 1
+            succ = [x for x in mir.succs(b)[sb]]
+            ok_b = fl.ok_blocks(b)
+            can_ok = [bool(ok_b & mir.reachable(b, [x])) for x in succ]
+            bad = any(can_ok) and not all(can_ok)   # one side can no longer succeed
+            ctx.ob("F-FLAGS", "flags-never-decide-rejection:%s" % b.root.rsplit("::", 1)[-1], not bad,
+                   "a branch on the flags value does not separate Ok from Err" if not bad else
+                   "a branch computed from the header flags leads to an Err on one side only: a message is rejected because of "
+                   "a flag bit", "%s:%s" % (b.file, t[5] if len(t) > 5 else "?"))
+    ctx.note("F-FLAGS: %d branch(es) on the flags value inspected on the decoding path" % n)
+
+
 def run(ctx):
     ctx.explanation = (
         "R-FALL over MIR of zbus (K1): for the header-field code, the flags member and the message-type member the rule resolves "
@@ -210,6 +252,7 @@ def run(ctx):
                        "decoders; enumflags2/serde internals beyond the stated assumption.")
     f = ctx.facts("K1")
     known_sets(ctx, f)
+    flags_never_reject(ctx, f)
 
     # ------------------------------------------------------------------ F-CODE
     vis = ctx.one(f.find(name="visit_seq", adt=VISITOR), "FieldsVisitor::visit_seq")
